@@ -462,6 +462,156 @@ def entry_job(interp, c, case):
              "every reported row has positive volume and the requested time", "lineage rows", {"kind": "single_cell"})
 
 
+# ---------------------------------------------------------------------------------------------------------------------
+# lineage bookkeeping: one iteration of SimulateCellLineage's queue loop from an arbitrary aligned queue
+class _AbsResult:
+    def __init__(self, fin, sch):
+        self.fin, self.sch = fin, sch
+
+    def get_final_cell_state(self):
+        return self.fin
+
+    def get_schnitz(self):
+        return self.sch
+
+
+class _AbsPartitionInterface:
+    def __init__(self, L, c):
+        self.L, self.c, self.calls = L, c, []
+
+    def partition(self, rule, cs):
+        k = len(self.calls)
+        d = [self.L.ns["LineageVolumeCellState"](v0=self.c.real("dv_%d_%d" % (k, j), lo=0, lo_strict=True), t0=cs.get_time(),
+                                                 state=np.array([self.c.int("dx_%d_%d" % (k, j), lo=0)], dtype=object)) for j in (0, 1)]
+        self.calls.append((rule, cs, d))
+        return np.array(d, dtype=object)
+
+
+def lineage_queue_step(interp, c, case):
+    """one iteration of the real `while list_index < len(self.old_cell_states)` loop of SimulateCellLineage (with the real
+    simulate_cell_list / simulate_daughter_cells / truncate_timepoints_less_than), single-cell simulation and partition
+    abstract: arbitrary end times, fates and records"""
+    n, pos, T, n_init = case
+    L = interp.load("bioscrape.lineage")
+    Ty = interp.load("bioscrape.types")
+    fi = interp.find_function("bioscrape.lineage", "LineageSSASimulator.SimulateCellLineage")
+    grid = make_grid(c, T)
+    final = grid[T - 1]
+    sim = L.ns["LineageSSASimulator"]()
+    f = sim.__dict__["_f"]
+    itf = _AbsPartitionInterface(L, c)
+    f["interface"] = itf
+    record = {}          # id(schnitz) -> the cell state it is the record of
+    sims = []
+
+    def fresh_cell(tag, t_lo=None):
+        t = c.real("t_" + tag)
+        t0 = c.real("t0_" + tag)
+        c.assume(t0 <= t)
+        if t_lo is not None:
+            c.assume(t_lo <= t)
+        cs = L.ns["LineageVolumeCellState"](v0=c.real("v0_" + tag, lo=0, lo_strict=True), t0=t0,
+                                            state=np.array([c.int("x_" + tag, lo=0)], dtype=object),
+                                            volume=c.real("v_" + tag, lo=0, lo_strict=True), time=t,
+                                            divided=c.int("div_" + tag, lo=-1, hi=1), dead=c.int("dead_" + tag, lo=-1, hi=1))
+        sch = Ty.ns["Schnitz"](np.array([t0, t], dtype=object), np.zeros((2, 1), dtype=object), np.zeros(2, dtype=object))
+        record[id(sch)] = cs
+        return cs, sch
+
+    def stub_single(cell, tp, mode):
+        k = len(sims)
+        cs, sch = fresh_cell("sim%d" % k, t_lo=cell.get_time())
+        sims.append((cell, tp, mode, cs, sch))
+        return _AbsResult(cs, sch)
+
+    f["SimulateSingleCell"] = stub_single
+    f["lineage"] = Ty.ns["Lineage"]()
+    f["old_cell_states"], f["old_schnitzes"] = [], []
+    K = {"kind": "lineage", "death": True}
+
+    def aligned():
+        a, b = f["old_cell_states"], f["old_schnitzes"]
+        return len(a) == len(b) and all(record.get(id(y)) is x for x, y in zip(a, b))
+
+    init = [L.ns["LineageVolumeCellState"](v0=1, t0=grid[0], state=np.array([c.int("xi_%d" % i, lo=0)], dtype=object)) for i in range(n_init)]
+    fr, w, post = run_prologue(interp, fi, sim, [init, grid])
+    Lc = fr.locals
+    if pos == 0 and n == n_init:
+        # [init] the prologue itself: every initial cell simulated once on the whole grid, queued with its own record
+        ok = len(sims) == n_init and all(sims[i][0] is init[i] and sims[i][1] is grid and sims[i][2] == 1 for i in range(n_init))
+        _rep(c, ok and aligned() and len(f["old_cell_states"]) == n_init and Lc["list_index"] == 0
+             and list(f["lineage"].schnitzes) == [s_[4] for s_ in sims]
+             and all(s_[4].get_parent() is None for s_ in sims),
+             "[queue-init] every initial cell is simulated once on the whole grid and queued together with its own record, which is in the lineage without a parent",
+             "lineage queue init", K)
+    # arbitrary aligned queue
+    cells, schs = [], []
+    for i in range(n):
+        cs, sch = fresh_cell("q%d" % i)
+        cells.append(cs)
+        schs.append(sch)
+    f["old_cell_states"], f["old_schnitzes"] = list(cells), list(schs)
+    lin = Ty.ns["Lineage"]()
+    for s_ in schs:
+        lin.add_schnitz(s_)
+    f["lineage"] = lin
+    Lc["list_index"] = pos
+    del sims[:]
+    del itf.calls[:]
+    cs, sch = cells[pos], schs[pos]
+    try:
+        out = interp.exec_loop_once(w, fr)
+    except ValueError as e:
+        _rep(c, s_and(cs.get_time() < final, cs.get_dead() < 0, cs.get_divided() >= 0, cs.get_initial_time() == cs.get_time()),
+             "[queue] the only error raised is the documented zero-lifetime division (%s)" % str(e)[:40], "lineage queue unexpected error", K)
+        return
+    except CFault as e:
+        _rep(c, False, "[queue] memory-unsafe access: %s" % e, "lineage queue unsafe access", K)
+        return
+    _rep(c, Lc["list_index"] == pos + 1 and f["old_cell_states"][:n] == cells and f["old_schnitzes"][:n] == schs,
+         "[queue] the loop visits the next queued cell and never reorders or drops queued entries", "lineage queue order", K)
+    _rep(c, aligned(), "[queue] cell states and their records stay paired index by index (lengths %d / %d)"
+         % (len(f["old_cell_states"]), len(f["old_schnitzes"])), "lineage queue misaligned", K)
+    t = cs.get_time()
+    from fractions import Fraction as Fr
+    divides = s_and(s_not(t >= final - Fr(1, 10 ** 9)), cs.get_dead() < 0, cs.get_divided() >= 0)
+    if not divides:
+        _rep(c, not sims and not itf.calls and len(f["old_cell_states"]) == n and len(lin.schnitzes) == n
+             and sch.get_daughter_1() is None and sch.get_daughter_2() is None,
+             "[queue] a finished, dead or undivided cell is left alone: nothing simulated, queued or linked", "lineage queue idle cell touched", K)
+        return
+    ok = len(itf.calls) == 1 and itf.calls[0][1] is cs
+    _rep(c, ok and itf.calls[0][0] == cs.get_divided(),
+         "[division] the mother is partitioned exactly once, by the rule or event that divided her", "lineage partition call", K)
+    if not ok:
+        return
+    d = itf.calls[0][2]
+    ok = len(sims) == 2 and sims[0][0] is d[0] and sims[1][0] is d[1] and sims[0][2] == 1 and sims[1][2] == 1
+    _rep(c, ok, "[division] each daughter from the partition is simulated exactly once, with trajectories kept", "lineage daughters simulated", K)
+    if not ok:
+        return
+    # time points handed to the daughters: the grid from the first point >= the mother's division time
+    j = 0
+    while j < T and not (grid[j] >= t):
+        j += 1
+    for k in (0, 1):
+        tp = sims[k][1]
+        _rep(c, len(tp) == T - j and all(tp[i] is grid[j + i] or tp[i] == grid[j + i] for i in range(len(tp))),
+             "[division] daughter %d is simulated on the grid from the mother's division time on" % (k + 1), "lineage daughter grid", K)
+    s1, s2 = sims[0][4], sims[1][4]
+    _rep(c, s1.get_parent() is sch and s2.get_parent() is sch and sch.get_daughter_1() is s1 and sch.get_daughter_2() is s2,
+         "[division] mother and daughter records are linked mutually, to the mother that was partitioned", "lineage links", K)
+    _rep(c, list(lin.schnitzes) == schs + [s1, s2] and len(lin.c_schnitzes) == n + 2,
+         "[division] both daughter records are added to the lineage, once", "lineage records added", K)
+    want_c, want_s = list(cells), list(schs)
+    for k in (0, 1):
+        if sims[k][3].get_time() < final + Fr(1, 10 ** 12):
+            want_c.append(sims[k][3])
+            want_s.append(sims[k][4])
+    _rep(c, f["old_cell_states"] == want_c and f["old_schnitzes"] == want_s,
+         "[division] each daughter that ended within the grid is queued, state and record together", "lineage daughters queued", K)
+
+
 def check(tier):
     ck = Check("C19", "model_checking", tier)
     mx = 2 if tier == "quick" else 3
@@ -484,6 +634,9 @@ def check(tier):
                 ck.add("single-cell-aligned/S%dR%dT%d/ci%d" % (S, R, T, ci), "harness.C19", "single_cell_step",
                        dict(cases=[(S, R, a, b, d, T, ci)], aligned=True))
     ck.add("entry-end-to-end", "harness.C19", "entry_job", dict(cases=[(3,), (4,)]), fresh=True)
+    qs = [(1, 0, 2, 1), (2, 0, 3, 2), (2, 1, 3, 1), (3, 1, 3, 1)] + ([(3, 2, 4, 2), (4, 0, 4, 3), (4, 3, 4, 1)] if tier == "thorough" else [])
+    for q in qs:
+        ck.add("lineage-queue/n%d/pos%d/T%d" % q[:3], "harness.C19", "lineage_queue_step", dict(cases=[q]))
     ck.bounds = dict(mother_counts="0..%d per species" % mx, species="1..3 with every mix of partition modes", volumes="> 0",
                      partition_noise="[0, 0.49] general / [0,1] lineage", single_cell="S,R <= 3, 0..1 events of each kind, T <= 4, one "
                      "iteration from an arbitrary pre-state")
@@ -492,8 +645,10 @@ def check(tier):
         "p = V_d/V, which is Binomial(n,p) for i.i.d. uniforms (trusted)",
         "abstract lineage interface: arbitrary non-negative propensities (reactions, volume/division/death events), arbitrary rule "
         "outcomes, arbitrary volumes returned by volume rules/events (non-positive ones must be rejected by the loop)",
-        "lineage bookkeeping across cells (mother/daughter links, t0 of daughters) is checked on the real build by the replay "
-        "driver scenarios only; interacting lineages, turbidostat, custom splitters are outside the claim",
+        "lineage bookkeeping across cells: one iteration of SimulateCellLineage's queue loop (real simulate_cell_list, "
+        "simulate_daughter_cells, truncate_timepoints_less_than, Schnitz, Lineage) from an arbitrary queue whose states and "
+        "records are paired, with the single-cell simulation and the partition abstract (arbitrary end time >= start, fate, "
+        "record); interacting lineages, turbidostat, propagation without records, custom splitters are outside the claim",
     ]
     mut = [
         ("binomial-share-not-subtracted", dict(module="bioscrape.lineage", old="\t\t\tamount = cyrandom.binom_rnd_f(dstate[species_index],p)\n\t\t\tdstate[species_index] = <double> amount\n\t\t\testate[species_index] -= dstate[species_index]",
@@ -505,8 +660,14 @@ def check(tier):
         ("division-code-offset", dict(module="bioscrape.lineage", old="cell_divided = reaction_choice - self.num_reactions - self.num_volume_events + self.num_division_rules",
                                       new="cell_divided = reaction_choice - self.num_reactions + self.num_division_rules"), "cell"),
     ]
+    mut += [("daughter-linked-to-sister", dict(module="bioscrape.lineage", old="\t\t\tself.daughter_schnitz2.set_parent(self.s)",
+                                               new="\t\t\tself.daughter_schnitz2.set_parent(self.daughter_schnitz1)"), "queue"),
+            ("queue-skips-record", dict(module="bioscrape.lineage", old="\t\t\tif create_schnitzes:\n\t\t\t\tself.old_schnitzes.append(self.daughter_schnitz1)",
+                                        new="\t\t\tif create_schnitzes and self.d1final.get_dead() < 0:\n\t\t\t\tself.old_schnitzes.append(self.daughter_schnitz1)"), "queue")]
     for name, m, w in mut:
-        if w == "split_l":
+        if w == "queue":
+            ck.add_mutant(name, m, w, "harness.C19", "lineage_queue_step", dict(cases=[(2, 1, 3, 1)]))
+        elif w == "split_l":
             ck.add_mutant(name, m, w, "harness.C19", "splitter_job", dict(cases=[("lineage", ("binomial", "perfect"), 2, "binomial")]), unwind=5)
         elif w == "split_g":
             ck.add_mutant(name, m, w, "harness.C19", "splitter_job", dict(cases=[("general", ("binomial", "perfect"), 2, None)]), unwind=5)
